@@ -9,11 +9,12 @@ for fn in sorted(os.listdir(os.path.join(V, 'manifest.d'))):
 if os.path.exists(os.path.join(V, 'tools', 'not_applicable.json')):
     src['not_applicable'] = json.load(open(os.path.join(V, 'tools', 'not_applicable.json')))
 props = [json.loads(l) for l in open(os.path.join(V, 'properties.jsonl'))]
+READY = set(open(os.path.join(V, 'tools', 'ready.txt')).read().split())   # the lead lists a property here once its check is integrated (fixes applied, quiet on /repo)
 checks, na = [], []
 for p in props:
     pid = p['id']
     meta = src['checks'].get(pid)
-    if meta and os.path.exists(os.path.join(V, 'vf', 'checks', pid.lower() + '.py')):
+    if meta and pid in READY and os.path.exists(os.path.join(V, 'vf', 'checks', pid.lower() + '.py')):
         checks.append({
             'property_id': pid,
             'quick_cmd': './run.py %s quick' % pid,
